@@ -65,7 +65,7 @@ def gen_plan(rng, opts=None):
     cluster = J.gen_cluster_plan(rng, job, hmax=o["hmax"], wmax=o["wmax"])
     knobs = dict(p_step=rng.choice([20, 50, 80]), batch=rng.choice([1, 2, 4, 8]),
                  reorder_outputs=rng.choice([0, 0, 30, 100]) if o.get("reorder", True) else 0,
-                 swap=rng.choice([0, 0, 0, 10]) if o.get("swap", False) else 0,
+                 swap=rng.choice([0, 0, 0, 10]) if o.get("swap", False) else 0, incremental=rng.choice([0, 50, 100]),
                  exec="runner" if rng.randrange(100) < o["exec_pct"] else "model")
     plan = dict(job=job, cluster=cluster, knobs=knobs)
     if o.get("rerun") and rng.randrange(100) < o["rerun"]:
@@ -109,6 +109,7 @@ class ModelBridge:
         self.swapped = False
         self.deferred = []
         self.failure = None
+        self.partial = {}     # worker -> number of outputs its running generator task has produced so far
 
     def defer(self, prop, cls, detail, **sig):
         if not any(d[0] == prop and d[1] == cls for d in self.deferred):
@@ -252,6 +253,26 @@ class ModelBridge:
                 except Exception as e:
                     raise TaskFailed(t, e)
             else:
+                outs_all = sorted(self.job.tasks[t].definition.output_schema)
+                k = self.partial.get(w, 0)
+                if len(outs_all) > 1 and (k > 0 or self.ch.chance(self.knobs.get("incremental", 0))):
+                    # a generator task: its outputs are stored and announced one by one (in key order) while the task is still
+                    # running and still holds its inputs; it has completed only with the last of them
+                    ds = DatasetId(t, outs_all[k])
+                    self.store[w.host][ds] = ("val", t, outs_all[k])
+                    self.produced.add(ds)
+                    self.fifo[w.host].append(DatasetPublished(origin=w, ds=ds, transmit_idx=None))
+                    self._rec("M.part", repr(w), t, outs_all[k])
+                    self.probes["output_announced_while_task_running"] += 1
+                    if k + 1 < len(outs_all):
+                        self.partial[w] = k + 1
+                        return
+                    self.partial.pop(w, None)
+                    self.wq[w].pop(0)
+                    if not self.wq[w]:
+                        del self.wq[w]
+                    self.finished.add(t)
+                    return
                 for o in self.job.tasks[t].definition.output_schema:
                     self.store[w.host][DatasetId(t, o)] = ("val", t, o)
             self.wq[w].pop(0)
